@@ -181,7 +181,8 @@ def cv_case(draw, method, modes):
     cond_col = [r[0] for r in rows]
     fold_col = [r[1] for r in rows] if mode == 'explicit' else default_folds(cond_col)
     n = len(rows)
-    meas, kind = draw(U.data_matrix(n, p, 'poisson' if method == 'poisson_cv' else method))
+    meas, kind = draw(U.data_matrix(n, p, 'poisson' if method == 'poisson_cv' else method,
+                                      positive=cfg['prior'][0] == 0))
     data_mode = draw(st.sampled_from(['free', 'free', 'one_fold', 'two_folds']))
     hot = []
     if data_mode != 'free':
@@ -190,7 +191,7 @@ def cv_case(draw, method, modes):
         fsorted = sorted(U.distinct(fold_col))
         hot_vals = [fsorted[h] for h in hot]
         base, _ = draw(U.data_matrix(n_fold, p, 'poisson' if method == 'poisson_cv' else method,
-                                     kind=kind))
+                                     kind=kind, positive=cfg['prior'][0] == 0))
         for i in range(n):
             if not any(U.same_label(fold_col[i], h) for h in hot_vals):
                 rank = [j for j, f in enumerate(fsorted) if U.same_label(f, fold_col[i])][0]
